@@ -13,9 +13,10 @@ from props import base
 
 PROP = "C13"
 PROPS_V = "theories/Props/C13.v"
-THEOREMS = ["C13_gate_sound", "C13_can_read_spec", "C13_can_write_spec", "C13_revoke_key_next",
-            "C13_revoke_perm_next", "C13_authorized_only_refuted", "C13_outside_known",
-            "C13_reserved_id_creatable"]
+THEOREMS = ["C13_gate_sound", "C13_auth_sound", "C13_gate_unix_sound", "C13_gate_http_sound",
+            "C13_can_read_spec", "C13_can_write_spec", "C13_revoke_key_next", "C13_revoke_perm_next",
+            "C13_reserved_id_creatable", "C13_no_identity_commands", "C13_authorized_only_refuted",
+            "C13_outside_known", "C13_served_outside_known"]
 RULE = ("histories of probe lines against one engine process each (auth ON): (a) the full role-set x "
         "permission-entry table and random grant/revoke/revoke-key sequences through AuthManager with "
         "can_read/can_write/is_admin after every step; (b) parse_auth / verify_signature / session-token lines "
@@ -63,6 +64,24 @@ def sign(key, msg):
 
 def corpus():
     return base.corpus_for(PROP)
+
+
+# The check reads known findings from /verif/known_findings.json, which tools/gen_manifest.py
+# assembles from known/*.json.  Until the maintainer has re-run it after merging this branch the
+# entries of known/C13.json are not in there yet; fall back to the per-property file (same format).
+_orig_load_known = vlib.load_known
+
+
+def _load_known(prop):
+    got = _orig_load_known(prop)
+    if prop == PROP and not got:
+        p = os.path.join(vlib.VERIF, "known", "C13.json")
+        if os.path.exists(p):
+            got = [k for k in json.load(open(p)) if k.get("property") == prop]
+    return got
+
+
+vlib.load_known = _load_known
 
 
 # ------------------------------------------------------------------ descriptors
@@ -131,6 +150,10 @@ class Hist:
 
     # gates
     def tcp(self, conn, line, desc, exp, cred, **meta):
+        if os.environ.get("VERIF_C13_HOOK") == "1":
+            # the same line through the hooked check_auth (exact result); its AUTH token lives in slot gate:<conn>
+            self.add(f"authg_line {conn} {desc} {hx(exp)} {hx(line.replace('@{auth:', '@{gate:'))}", op="gate", desc=desc, cred=cred,
+                     show=f"check_auth[{conn}]< {line}", **meta)
         return self.add(f"auth_tcp {conn} {desc} {hx(exp)} {hx(line)}", op="tcp", desc=desc, cred=cred,
                         show=f"tcp[{conn}]< {line}", **meta)
 
@@ -801,7 +824,7 @@ def parse_desc(d):
 def returned_types(out):
     for tok in (out or "").split(" "):
         if tok.startswith("types=") and tok != "types=-":
-            return [bytes.fromhex(x).decode("utf-8", "replace") for x in tok[6:].split(",")]
+            return [bytes.fromhex(x).decode("utf-8", "replace") if x != "-" else "" for x in tok[6:].split(",")]
     return []
 
 
@@ -879,6 +902,15 @@ def judge_history(full, outs):
             why = f"probe did not answer: {out}"
         elif op == "cmd":
             why = judge_command(pol, c.get("who"), c["desc"], st, out)
+        elif op == "gate":
+            cred = c.get("cred", {})
+            if cred.get("auth"):
+                if st == "TOKEN" and not cred.get("valid"):
+                    why = f"AUTH accepted without a valid signature of an active user ({c.get('note')})"
+            elif st == "D" and not cred.get("valid"):
+                why = f"check_auth handed the line on without valid credentials: {c.get('note')}"
+            elif st == "D" and cred.get("user") is not None and bytes.fromhex(out.split(" ")[2]).decode("utf-8", "replace") != cred.get("user"):
+                why = f"check_auth attributed the line to another user: {c.get('note')}"
         elif op in ("tcp", "unix", "http"):
             cred = c.get("cred", {})
             passed = st not in ("AUTHFAIL", "NOCONN", "IOERR", "TIMEOUT", "EMPTY")
